@@ -16,7 +16,16 @@ import (
 	"golang.org/x/tools/go/ssa"
 )
 
-// inputLeaf describes one leaf constant of a parameter.
+// Replay of counter-models on the real code.
+//
+// At function entry the generator records, for every parameter, the SMT terms whose model values are needed to
+// rebuild a concrete input (scalars, struct limbs, the first replayK bytes of byte slices and strings, the byte
+// slices reachable from a *BioSequence).  After a `sat` answer those terms are read back with (get-value), a Go
+// test that calls the REAL function is generated and run through `go test -overlay`, and the violated clause is
+// evaluated on the concrete inputs/outputs by the solver.
+
+const replayK = 24
+
 type inputLeaf struct {
 	Const string
 	Param int
@@ -24,13 +33,131 @@ type inputLeaf struct {
 	Typ   types.Type
 }
 
-// parseGetValue parses "((name value) (name value) ...)" from solver output (after the sat line).
-var gvRe = regexp.MustCompile(`\(([^\s()]+)\s+((?:\(_ bv\d+ \d+\))|(?:#x[0-9a-fA-F]+)|(?:#b[01]+)|(?:\(- \d+\))|(?:[^\s()]+))\)`)
+type replayBytes struct {
+	arr, off, ln string
+	elems        []string
+}
 
-func parseModelValues(out string) map[string]string {
+type replayParam struct {
+	kind   string // value | bytes | string | bioseq | unsupported
+	typ    types.Type
+	ref    string                  // bioseq: the pointer constant
+	bytes  *replayBytes            // bytes
+	fields map[string]*replayBytes // bioseq: sequence, qualities, feature
+	str    string                  // string constant
+	strLen string
+	strAt  []string
+}
+
+// recordReplayTerms is called at function entry (state = entry state).
+func (fx *fnExec) recordReplayTerms() {
+	fx.replayParams = nil
+	add := func(t string) string {
+		fx.replayTerms = append(fx.replayTerms, t)
+		return t
+	}
+	mkBytes := func(sl Sl) *replayBytes {
+		if fx.mode != "int" {
+			return nil
+		}
+		h := fx.heap(fx.st, "E.byte", arrSort(SInt, arrSort(SInt, SInt)))
+		rb := &replayBytes{arr: add(sl.Arr.S), off: add(sl.Off.S), ln: add(sl.Len.S)}
+		for i := 0; i < replayK; i++ {
+			rb.elems = append(rb.elems, add(fmt.Sprintf("(select (select %s %s) (+ %s %d))", h.S, sl.Arr.S, sl.Off.S, i)))
+		}
+		return rb
+	}
+	for _, p := range fx.fn.Params {
+		rp := &replayParam{kind: "unsupported", typ: p.Type()}
+		v := fx.paramEntry[p.Name()]
+		switch x := v.(type) {
+		case Sc:
+			switch {
+			case x.T.So == SStr:
+				rp.kind = "string"
+				rp.str = x.T.S
+				rp.strLen = add(fmt.Sprintf("(slen %s)", x.T.S))
+				for i := 0; i < replayK; i++ {
+					rp.strAt = append(rp.strAt, add(fmt.Sprintf("(sat %s %d)", x.T.S, i)))
+				}
+			case isBioSeqPtr(p.Type()):
+				rp.kind = "bioseq"
+				rp.ref = x.T.S
+				rp.fields = map[string]*replayBytes{}
+				if fx.mode == "int" {
+					pt := p.Type().Underlying().(*types.Pointer).Elem()
+					st := pt.Underlying().(*types.Struct)
+					for i := 0; i < st.NumFields(); i++ {
+						f := st.Field(i)
+						if f.Name() != "sequence" && f.Name() != "qualities" && f.Name() != "feature" {
+							continue
+						}
+						ad := Ad{Heap: "F." + typeKey(pt), Idx: []Term{x.T}, Path: []pathEl{{Field: i, Name: f.Name()}}, Typ: f.Type(), rootTyps: []types.Type{pt, f.Type()}}
+						sv := fx.loadIn(fx.st, ad, false)
+						if sl, ok := sv.(Sl); ok {
+							rp.fields[f.Name()] = mkBytes(sl)
+						}
+					}
+				}
+			default:
+				if _, ok := intInfoOf(p.Type()); ok || x.T.So == SBool {
+					rp.kind = "value"
+				}
+			}
+		case St:
+			rp.kind = "value"
+		case Sl:
+			if eb, ok := x.Elem.Underlying().(*types.Basic); ok && eb.Kind() == types.Uint8 {
+				rp.kind = "bytes"
+				rp.bytes = mkBytes(x)
+			}
+		}
+		fx.replayParams = append(fx.replayParams, rp)
+	}
+}
+
+func isBioSeqPtr(t types.Type) bool {
+	pt, ok := t.Underlying().(*types.Pointer)
+	if !ok {
+		return false
+	}
+	n, ok := pt.Elem().(*types.Named)
+	return ok && n.Obj().Name() == "BioSequence" && n.Obj().Pkg() != nil && n.Obj().Pkg().Name() == "obiseq"
+}
+
+// parseGetValue reads the (get-value ...) answer positionally: the k-th pair belongs to the k-th requested term.
+func parseGetValue(out string, terms []string) map[string]string {
 	m := map[string]string{}
-	for _, mm := range gvRe.FindAllStringSubmatch(out, -1) {
-		m[mm[1]] = mm[2]
+	i := strings.Index(out, "((")
+	if i < 0 {
+		return m
+	}
+	txt := out[i:]
+	depth := 0
+	end := -1
+	for k := 0; k < len(txt); k++ {
+		if txt[k] == '(' {
+			depth++
+		} else if txt[k] == ')' {
+			depth--
+			if depth == 0 {
+				end = k + 1
+				break
+			}
+		}
+	}
+	if end < 0 {
+		return m
+	}
+	n, err := parseSx(txt[:end])
+	if err != nil || n.list == nil {
+		return m
+	}
+	for k, pair := range n.list {
+		if k >= len(terms) || len(pair.list) != 2 {
+			break
+		}
+		m[terms[k]] = pair.list[1].String()
 	}
 	return m
 }
@@ -38,7 +165,7 @@ func parseModelValues(out string) map[string]string {
 func modelInt(s string) (*big.Int, bool) {
 	s = strings.TrimSpace(s)
 	if strings.HasPrefix(s, "(- ") {
-		v, ok := new(big.Int).SetString(strings.TrimSuffix(strings.TrimPrefix(s, "(- "), ")"), 10)
+		v, ok := new(big.Int).SetString(strings.TrimSpace(strings.TrimSuffix(strings.TrimPrefix(s, "(- "), ")")), 10)
 		if ok {
 			v.Neg(v)
 		}
@@ -57,8 +184,7 @@ func modelInt(s string) (*big.Int, bool) {
 	return new(big.Int).SetString(s, 10)
 }
 
-// goLiteral builds a Go expression of type t from the leaf values (in leaves order); returns consumed count.
-func goLiteral(t types.Type, vals []*big.Int, bools []bool, kinds []string, pos *int, qual types.Qualifier) (string, bool) {
+func goLiteral(t types.Type, vals []*big.Int, bools []bool, pos *int, qual types.Qualifier) (string, bool) {
 	switch u := t.Underlying().(type) {
 	case *types.Basic:
 		i := *pos
@@ -77,7 +203,7 @@ func goLiteral(t types.Type, vals []*big.Int, bools []bool, kinds []string, pos 
 	case *types.Struct:
 		var fs []string
 		for k := 0; k < u.NumFields(); k++ {
-			e, ok := goLiteral(u.Field(k).Type(), vals, bools, kinds, pos, qual)
+			e, ok := goLiteral(u.Field(k).Type(), vals, bools, pos, qual)
 			if !ok {
 				return "", false
 			}
@@ -88,7 +214,6 @@ func goLiteral(t types.Type, vals []*big.Int, bools []bool, kinds []string, pos 
 	return "", false
 }
 
-// resultPrinters: Go expressions printing each leaf of a result value.
 func leafExprs(t types.Type, base string) ([]string, bool) {
 	switch u := t.Underlying().(type) {
 	case *types.Basic:
@@ -113,154 +238,74 @@ func leafExprs(t types.Type, base string) ([]string, bool) {
 type replayOutcome struct {
 	ran      bool
 	panicked bool
-	results  []string // leaf values as printed
+	results  []string
+	hasRes   bool
 	log      string
 	driver   string
 	timedOut bool
 }
 
-// runValueReplay calls the real function on scalar/struct inputs taken from the model.
-func (r *Report) runValueReplay(fx *fnExec, model map[string]string, dir string) replayOutcome {
+func bytesLiteral(rb *replayBytes, model map[string]string) (string, bool) {
+	if rb == nil {
+		return "", false
+	}
+	arr, ok1 := modelInt(model[rb.arr])
+	ln, ok2 := modelInt(model[rb.ln])
+	if !ok1 || !ok2 {
+		return "", false
+	}
+	if arr.Sign() == 0 {
+		return "nil", true
+	}
+	if !ln.IsInt64() || ln.Int64() > replayK || ln.Sign() < 0 {
+		return "", false
+	}
+	var bs []string
+	for i := 0; i < int(ln.Int64()); i++ {
+		v, ok := modelInt(model[rb.elems[i]])
+		if !ok {
+			v = big.NewInt(0)
+		}
+		bs = append(bs, fmt.Sprint(new(big.Int).And(v, big.NewInt(255))))
+	}
+	return "[]byte{" + strings.Join(bs, ", ") + "}", true
+}
+
+const bioseqHelper = `package obiseq
+
+import "sync"
+
+// VerifMakeSeq exists only in replay builds (injected with go test -overlay).
+func VerifMakeSeq(s, q, f []byte) *BioSequence {
+	return &BioSequence{sequence: s, qualities: q, feature: f, annot_lock: &sync.Mutex{}}
+}
+`
+
+func (r *Report) runReplay(fx *fnExec, model map[string]string, dir string) replayOutcome {
 	fn := fx.fn
 	var out replayOutcome
 	if fn == nil || fn.Pkg == nil {
 		return out
 	}
 	pkg := fn.Pkg.Pkg
+	imports := map[string]bool{}
 	qual := func(p *types.Package) string {
 		if p == pkg {
 			return ""
 		}
+		imports[p.Path()] = true
 		return p.Name()
 	}
+	var setup []string
 	var args []string
+	refVars := map[string]string{}
+	needHelper := false
 	for pi, p := range fn.Params {
-		var vals []*big.Int
-		var bools []bool
-		var kinds []string
-		for _, il := range fx.inputLeaves {
-			if il.Param != pi {
-				continue
-			}
-			mv, ok := model[il.Const]
-			if !ok {
-				mv = "0"
-				if il.Sort == SBool {
-					mv = "false"
-				}
-			}
-			if il.Sort == SBool {
-				bools = append(bools, mv == "true")
-				vals = append(vals, nil)
-			} else {
-				v, ok := modelInt(mv)
-				if !ok {
-					out.log = "cannot read model value " + mv + " for " + il.Const
-					return out
-				}
-				vals = append(vals, v)
-				bools = append(bools, false)
-			}
-			kinds = append(kinds, il.Sort)
-		}
-		pos := 0
-		e, ok := goLiteral(p.Type(), vals, bools, kinds, &pos, qual)
-		if !ok {
-			out.log = "generic replay driver does not support parameter type " + p.Type().String()
-			return out
-		}
-		args = append(args, e)
-	}
-	// call expression
-	var call string
-	name := fn.Name()
-	if fn.Signature.Recv() != nil {
-		call = fmt.Sprintf("(%s).%s(%s)", args[0], name, strings.Join(args[1:], ", "))
-	} else {
-		call = fmt.Sprintf("%s(%s)", name, strings.Join(args, ", "))
-	}
-	res := fn.Signature.Results()
-	var lhs []string
-	var prints []string
-	for i := 0; i < res.Len(); i++ {
-		lhs = append(lhs, fmt.Sprintf("r%d", i))
-		es, ok := leafExprs(res.At(i).Type(), fmt.Sprintf("r%d", i))
-		if !ok {
-			out.log = "generic replay driver does not support result type " + res.At(i).Type().String()
-			return out
-		}
-		prints = append(prints, es...)
-	}
-	var src strings.Builder
-	fmt.Fprintf(&src, "package %s\n\nimport (\n\t\"fmt\"\n\t\"testing\"\n)\n\nfunc TestVerifReplay(t *testing.T) {\n", pkg.Name())
-	src.WriteString("\tpanicked := false\n\tvar leaves []string\n\tfunc() {\n\t\tdefer func() {\n\t\t\tif e := recover(); e != nil {\n\t\t\t\tpanicked = true\n\t\t\t}\n\t\t}()\n")
-	if len(lhs) > 0 {
-		fmt.Fprintf(&src, "\t\t%s := %s\n", strings.Join(lhs, ", "), call)
-		for _, p := range prints {
-			fmt.Fprintf(&src, "\t\tleaves = append(leaves, fmt.Sprint(%s))\n", p)
-		}
-	} else {
-		fmt.Fprintf(&src, "\t\t%s\n", call)
-	}
-	src.WriteString("\t}()\n\tfmt.Printf(\"VERIF-REPLAY panicked=%v leaves=%q\\n\", panicked, leaves)\n}\n")
-	out.driver = src.String()
-	// overlay
-	pkgDir := filepath.Dir(r.v.fset.Position(fn.Pos()).Filename)
-	drv := filepath.Join(dir, fmt.Sprintf("replay_%x_test.go", hashStr(fx.name+out.driver)))
-	os.WriteFile(drv, []byte(out.driver), 0o644)
-	ov := map[string]map[string]string{"Replace": {filepath.Join(pkgDir, "zz_verif_replay_test.go"): drv}}
-	ob, _ := json.Marshal(ov)
-	ovf := drv + ".overlay.json"
-	os.WriteFile(ovf, ob, 0o644)
-	cmd := exec.Command("go", "test", "-overlay", ovf, "-v", "-vet=off", "-count=1", "-timeout", "60s", "-run", "^TestVerifReplay$", ".")
-	cmd.Dir = pkgDir
-	cmd.Env = append(os.Environ(), "GOFLAGS=-mod=mod", "GOPROXY=off", "GOSUMDB=off", "GOTOOLCHAIN=local", "GOWORK=off")
-	t0 := time.Now()
-	o, _ := cmd.CombinedOutput()
-	out.log = fmt.Sprintf("$ go test -overlay ... -run TestVerifReplay (%s, %.1fs)\n%s", shortPath(pkgDir), time.Since(t0).Seconds(), string(o))
-	m := regexp.MustCompile(`VERIF-REPLAY panicked=(true|false) leaves=\[(.*)\]`).FindStringSubmatch(string(o))
-	if m == nil {
-		if strings.Contains(string(o), "panic: test timed out") {
-			out.ran = true
-			out.panicked = false
-			out.results = nil
-			out.log += "\n(replay timed out: non-termination observed)"
-			out.timedOut = true
-		}
-		return out
-	}
-	out.ran = true
-	out.panicked = m[1] == "true"
-	for _, q := range regexp.MustCompile(`"([^"]*)"`).FindAllStringSubmatch(m[2], -1) {
-		out.results = append(out.results, q[1])
-	}
-	return out
-}
-
-// concreteClauseHolds evaluates a contract clause on concrete inputs/outputs with the solver.
-// returns "true", "false" or "unknown".
-func (r *Report) concreteClause(fx *fnExec, clause Expr, model map[string]string, ro replayOutcome, withResult bool, dir string) string {
-	cx := r.v.newExec(fx.fn, fx.name+"$concrete", fx.ctr, fx.mode)
-	cx.st = newState()
-	cx.entry = cx.st
-	cx.curR = tTrue
-	cx.live = true
-	cx.cellNames = map[string][]ssa.Value{}
-	verdict := "unknown"
-	func() {
-		defer func() {
-			if e := recover(); e != nil {
-				if _, ok := e.(vcError); !ok {
-					panic(e)
-				}
-			}
-		}()
-		for _, rs := range r.v.cs.RawSMT {
-			cx.decls = append(cx.decls, rs)
-		}
-		env := &SpecEnv{fx: cx, cur: cx.st, old: cx.st, names: map[string]SV{}, bound: map[string]SV{}, callee: true}
-		for pi, p := range fx.fn.Params {
-			var ts []Term
+		rp := fx.replayParams[pi]
+		switch rp.kind {
+		case "value":
+			var vals []*big.Int
+			var bools []bool
 			for _, il := range fx.inputLeaves {
 				if il.Param != pi {
 					continue
@@ -273,17 +318,217 @@ func (r *Report) concreteClause(fx *fnExec, clause Expr, model map[string]string
 					}
 				}
 				if il.Sort == SBool {
-					ts = append(ts, Term{mv, SBool})
+					bools = append(bools, mv == "true")
+					vals = append(vals, nil)
 				} else {
-					v, _ := modelInt(mv)
-					ts = append(ts, cx.litTo(v, il.Sort))
+					v, ok := modelInt(mv)
+					if !ok {
+						out.log = "cannot read model value " + mv + " for " + il.Const
+						return out
+					}
+					vals = append(vals, v)
+					bools = append(bools, false)
 				}
 			}
-			i := 0
-			sv := cx.build(p.Type(), func(l leaf) Term { t := ts[i]; i++; return t })
-			env.names[p.Name()] = sv
-			env.names[p.Name()+"0"] = sv
-			env.names[fmt.Sprintf("arg%d", pi)] = sv
+			pos := 0
+			e, ok := goLiteral(p.Type(), vals, bools, &pos, qual)
+			if !ok {
+				out.log = "replay driver does not support parameter type " + p.Type().String()
+				return out
+			}
+			args = append(args, e)
+		case "bytes":
+			e, ok := bytesLiteral(rp.bytes, model)
+			if !ok {
+				out.log = fmt.Sprintf("model slice for %s is longer than %d bytes or unreadable", p.Name(), replayK)
+				return out
+			}
+			args = append(args, e)
+		case "string":
+			ln, ok := modelInt(model[rp.strLen])
+			if !ok || !ln.IsInt64() || ln.Int64() > replayK || ln.Sign() < 0 {
+				out.log = "model string too long or unreadable"
+				return out
+			}
+			var sb strings.Builder
+			sb.WriteString("\"")
+			for i := 0; i < int(ln.Int64()); i++ {
+				v, ok := modelInt(model[rp.strAt[i]])
+				if !ok {
+					v = big.NewInt(0)
+				}
+				fmt.Fprintf(&sb, "\\x%02x", v.Int64()&255)
+			}
+			sb.WriteString("\"")
+			args = append(args, sb.String())
+		case "bioseq":
+			ref, ok := modelInt(model[rp.ref])
+			if !ok {
+				out.log = "cannot read model pointer for " + p.Name()
+				return out
+			}
+			tname := types.TypeString(p.Type(), qual)
+			if ref.Sign() == 0 {
+				args = append(args, "("+tname+")(nil)")
+				break
+			}
+			if v, seen := refVars[ref.String()]; seen {
+				args = append(args, v)
+				break
+			}
+			var parts []string
+			for _, f := range []string{"sequence", "qualities", "feature"} {
+				e, ok := bytesLiteral(rp.fields[f], model)
+				if !ok {
+					out.log = fmt.Sprintf("model %s.%s is longer than %d bytes or unreadable", p.Name(), f, replayK)
+					return out
+				}
+				parts = append(parts, e)
+			}
+			needHelper = true
+			q := qual(p.Type().Underlying().(*types.Pointer).Elem().(*types.Named).Obj().Pkg())
+			ctor := "VerifMakeSeq"
+			if q != "" {
+				ctor = q + ".VerifMakeSeq"
+			}
+			vn := fmt.Sprintf("seq%d", pi)
+			setup = append(setup, fmt.Sprintf("%s := %s(%s)", vn, ctor, strings.Join(parts, ", ")))
+			refVars[ref.String()] = vn
+			args = append(args, vn)
+		default:
+			out.log = "replay driver does not support parameter type " + p.Type().String()
+			return out
+		}
+	}
+	var call string
+	name := fn.Name()
+	if fn.Signature.Recv() != nil {
+		call = fmt.Sprintf("(%s).%s(%s)", args[0], name, strings.Join(args[1:], ", "))
+	} else {
+		call = fmt.Sprintf("%s(%s)", name, strings.Join(args, ", "))
+	}
+	res := fn.Signature.Results()
+	var lhs []string
+	var prints []string
+	resOK := true
+	for i := 0; i < res.Len(); i++ {
+		lhs = append(lhs, fmt.Sprintf("r%d", i))
+		es, ok := leafExprs(res.At(i).Type(), fmt.Sprintf("r%d", i))
+		if !ok {
+			resOK = false
+			continue
+		}
+		prints = append(prints, es...)
+	}
+	var body strings.Builder
+	body.WriteString("\tpanicked := false\n\tvar leaves []string\n")
+	for _, s := range setup {
+		body.WriteString("\t" + s + "\n")
+	}
+	body.WriteString("\tfunc() {\n\t\tdefer func() {\n\t\t\tif e := recover(); e != nil {\n\t\t\t\tpanicked = true\n\t\t\t}\n\t\t}()\n")
+	if len(lhs) > 0 {
+		fmt.Fprintf(&body, "\t\t%s := %s\n", strings.Join(lhs, ", "), call)
+		for i := range lhs {
+			fmt.Fprintf(&body, "\t\t_ = r%d\n", i)
+		}
+		if resOK {
+			for _, p := range prints {
+				fmt.Fprintf(&body, "\t\tleaves = append(leaves, fmt.Sprint(%s))\n", p)
+			}
+		}
+	} else {
+		fmt.Fprintf(&body, "\t\t%s\n", call)
+	}
+	body.WriteString("\t}()\n\tfmt.Printf(\"VERIF-REPLAY panicked=%v leaves=%q\\n\", panicked, leaves)\n}\n")
+	var src strings.Builder
+	fmt.Fprintf(&src, "package %s\n\nimport (\n\t\"fmt\"\n\t\"testing\"\n", pkg.Name())
+	for ip := range imports {
+		fmt.Fprintf(&src, "\t%q\n", ip)
+	}
+	src.WriteString(")\n\nfunc TestVerifReplay(t *testing.T) {\n")
+	src.WriteString(body.String())
+	out.driver = src.String()
+	out.hasRes = resOK && len(lhs) > 0
+
+	pkgDir := filepath.Dir(r.v.fset.Position(fn.Pos()).Filename)
+	drv := filepath.Join(dir, fmt.Sprintf("replay_%x_test.go", hashStr(fx.name+out.driver)))
+	os.WriteFile(drv, []byte(out.driver), 0o644)
+	repl := map[string]string{filepath.Join(pkgDir, "zz_verif_replay_test.go"): drv}
+	if needHelper {
+		hp := filepath.Join(dir, "zz_verif_helper_obiseq.go")
+		os.WriteFile(hp, []byte(bioseqHelper), 0o644)
+		repl[filepath.Join(r.v.repo, "pkg", "obiseq", "zz_verif_helper.go")] = hp
+	}
+	ob, _ := json.Marshal(map[string]map[string]string{"Replace": repl})
+	ovf := drv + ".overlay.json"
+	os.WriteFile(ovf, ob, 0o644)
+	cmd := exec.Command("go", "test", "-overlay", ovf, "-v", "-vet=off", "-count=1", "-timeout", "60s", "-run", "^TestVerifReplay$", ".")
+	cmd.Dir = pkgDir
+	cmd.Env = append(os.Environ(), "GOFLAGS=-mod=mod", "GOPROXY=off", "GOSUMDB=off", "GOTOOLCHAIN=local", "GOWORK=off")
+	t0 := time.Now()
+	o, _ := cmd.CombinedOutput()
+	txt := string(o)
+	if len(txt) > 6000 {
+		txt = txt[:3000] + "\n...\n" + txt[len(txt)-3000:]
+	}
+	out.log = fmt.Sprintf("$ go test -overlay ... -run TestVerifReplay (%s, %.1fs)\n%s", shortPath(pkgDir), time.Since(t0).Seconds(), txt)
+	m := regexp.MustCompile(`VERIF-REPLAY panicked=(true|false) leaves=\[(.*)\]`).FindStringSubmatch(string(o))
+	if m == nil {
+		if strings.Contains(string(o), "panic: test timed out") {
+			out.ran = true
+			out.timedOut = true
+			out.log += "\n(replay timed out: non-termination observed)"
+		}
+		return out
+	}
+	out.ran = true
+	out.panicked = m[1] == "true"
+	for _, q := range regexp.MustCompile(`"([^"]*)"`).FindAllStringSubmatch(m[2], -1) {
+		out.results = append(out.results, q[1])
+	}
+	return out
+}
+
+// concreteClause evaluates a contract clause on the concrete inputs (model) and the real outputs.
+// Returns "true", "false" or "unknown".
+func (r *Report) concreteClause(fx *fnExec, clause Clause, model map[string]string, ro replayOutcome, withResult bool, dir string) string {
+	cx := r.v.newExec(fx.fn, fx.name+"$concrete", fx.ctr, fx.mode)
+	cx.st = newState()
+	cx.entry = cx.st
+	cx.curR = tTrue
+	cx.live = true
+	cx.cellNames = map[string][]ssa.Value{}
+	// same names as the verification run: the model pins their values
+	cx.decls = append([]string{}, fx.decls...)
+	for k, v := range fx.declared {
+		cx.declared[k] = v
+	}
+	for k, v := range fx.heapSorts {
+		cx.heapSorts[k] = v
+	}
+	cx.strConsts = fx.strConsts
+	cx.fltConsts = fx.fltConsts
+	cx.nfresh = fx.nfresh + 100000
+	verdict := "unknown"
+	func() {
+		defer func() {
+			if e := recover(); e != nil {
+				if _, ok := e.(vcError); !ok {
+					panic(e)
+				}
+			}
+		}()
+		env := &SpecEnv{fx: cx, cur: cx.st, old: cx.st, names: map[string]SV{}, bound: map[string]SV{}, callee: true}
+		for k, v := range fx.paramEntry {
+			env.names[k] = v
+			env.names[k+"0"] = v
+		}
+		for _, t := range fx.allGetValueTerms() {
+			val, ok := model[t]
+			if !ok || val == "" || strings.Contains(val, "lambda") || strings.Contains(val, "as-array") || strings.Contains(val, "as const") {
+				continue
+			}
+			cx.assumps = append(cx.assumps, fmt.Sprintf("(assert (= %s %s))", t, val))
 		}
 		if withResult {
 			res := fx.fn.Signature.Results()
@@ -301,7 +546,10 @@ func (r *Report) concreteClause(fx *fnExec, clause Expr, model map[string]string
 					return Term{s, SBool}
 				}
 				v, _ := new(big.Int).SetString(s, 10)
-				return cx.litTo(v, l.sort)
+				if w := bvWidth(l.sort); w > 0 {
+					return bvLit(v, w)
+				}
+				return intLit(v)
 			})
 			cx.bindResult(env, sv, fx.fn.Signature)
 		}
@@ -310,30 +558,35 @@ func (r *Report) concreteClause(fx *fnExec, clause Expr, model map[string]string
 				cx.useAxiom(a)
 			}
 		}
-		t := cx.evalBool(clause, env)
-		o := &Obligation{Name: fx.name + "/concrete", Prefix: len(cx.assumps), Goal: t, fx: cx}
-		file := filepath.Join(dir, fmt.Sprintf("concrete_%x.smt2", hashStr(t.S)))
-		os.WriteFile(file, []byte(o.smt(false)), 0o644)
-		sr := runSolverSimple(file, 10)
-		switch sr {
-		case "unsat":
+		t := cx.evalClause(clause, env)
+		canBeFalse := solveClosed(cx, tNot(t), dir)
+		canBeTrue := solveClosed(cx, t, dir)
+		switch {
+		case canBeFalse == "unsat":
 			verdict = "true"
-		case "sat":
+		case canBeTrue == "unsat":
 			verdict = "false"
 		}
 	}()
 	return verdict
 }
 
-func runSolverSimple(file string, t int) string {
+// solveClosed: is `t` satisfiable together with the pinned inputs?
+func solveClosed(cx *fnExec, t Term, dir string) string {
+	o := &Obligation{Name: cx.name, Prefix: len(cx.assumps), Goal: tNot(t), fx: cx}
+	file := filepath.Join(dir, fmt.Sprintf("concrete_%x.smt2", hashStr(t.S+fmt.Sprint(len(cx.assumps)))))
+	txt := o.smt(false)
+	os.WriteFile(file, []byte(txt), 0o644)
 	for _, s := range solvers {
-		r := runSolver(context.Background(), s, t, file)
+		r := runSolver(context.Background(), s, 10, file)
 		if r.verdict == "sat" || r.verdict == "unsat" {
 			return r.verdict
 		}
 	}
 	return "unknown"
 }
+
+var splitSuffixRe = regexp.MustCompile(`(\[[^\]]*\])+$`)
 
 // replayAll: try to confirm each refuted obligation on the real code.
 func (r *Report) replayAll(dir string) {
@@ -347,13 +600,24 @@ func (r *Report) replayAll(dir string) {
 		if vi.known != nil && len(vi.known.Input) > 0 {
 			model = vi.known.Input
 		} else if o.Verdict == "sat" {
-			model = parseModelValues(o.Model)
+			model = parseGetValue(o.Model, fx.allGetValueTerms())
+			if small := r.smallModel(o, dir); small != nil {
+				model = small
+			}
 		} else {
 			continue
 		}
-		ro := r.runValueReplay(fx, model, dir)
+		if len(fx.replayParams) != len(fx.fn.Params) {
+			continue
+		}
+		ro := r.runReplay(fx, model, dir)
 		var b strings.Builder
-		fmt.Fprintf(&b, "model inputs: %v\n", model)
+		fmt.Fprintf(&b, "model inputs:\n")
+		for _, t := range fx.allGetValueTerms() {
+			if v, ok := model[t]; ok && len(t) < 60 {
+				fmt.Fprintf(&b, "  %s = %s\n", t, v)
+			}
+		}
 		if ro.driver != "" {
 			fmt.Fprintf(&b, "--- driver ---\n%s\n", ro.driver)
 		}
@@ -362,13 +626,14 @@ func (r *Report) replayAll(dir string) {
 			fmt.Fprintf(&b, "real code: panicked=%v results=%v\n", ro.panicked, ro.results)
 			confirmed := false
 			why := ""
+			oname := splitSuffixRe.ReplaceAllString(o.Name, "")
 			switch {
 			case ro.timedOut:
 				confirmed = true
 				why = "the real function did not terminate within 60 s on this input"
 			case o.Kind == "site.panics_iff" || o.Kind == "panics_iff":
 				if fx.ctr != nil && fx.ctr.PanicsIff != nil {
-					p := r.concreteClause(fx, fx.ctr.PanicsIff.E, model, ro, false, dir)
+					p := r.concreteClause(fx, *fx.ctr.PanicsIff, model, ro, false, dir)
 					fmt.Fprintf(&b, "panics_iff condition on these inputs: %s\n", p)
 					if (p == "true" && !ro.panicked) || (p == "false" && ro.panicked) {
 						confirmed = true
@@ -376,12 +641,10 @@ func (r *Report) replayAll(dir string) {
 					}
 				}
 			case o.Kind == "post":
-				if !ro.panicked {
-					// find the clause
-					oname := regexp.MustCompile(`(\[[^\]]*\])+$`).ReplaceAllString(o.Name, "")
+				if !ro.panicked && ro.hasRes {
 					for k, c := range fx.ctr.Ensures {
 						if strings.HasSuffix(oname, fmt.Sprintf("/post%d%s", k+1, lbl(c))) {
-							p := r.concreteClause(fx, c.E, model, ro, true, dir)
+							p := r.concreteClause(fx, c, model, ro, true, dir)
 							fmt.Fprintf(&b, "postcondition %q on the real result: %s\n", c.Src, p)
 							if p == "false" {
 								confirmed = true
@@ -396,18 +659,17 @@ func (r *Report) replayAll(dir string) {
 					why = "real code panicked on this input"
 				}
 			default:
-				// internal obligation (invariant, callee precondition): look at the externally visible contract
 				if fx.ctr != nil {
 					if ro.panicked && fx.ctr.PanicsIff == nil && !fx.ctr.MayPanic {
 						confirmed = true
 						why = "real code panicked on this input"
 					}
-					if !ro.panicked {
+					if !ro.panicked && ro.hasRes {
 						for _, c := range fx.ctr.Ensures {
 							if !c.inMode(fx.mode) {
 								continue
 							}
-							if r.concreteClause(fx, c.E, model, ro, true, dir) == "false" {
+							if r.concreteClause(fx, c, model, ro, true, dir) == "false" {
 								confirmed = true
 								why = "postcondition " + c.Src + " false on the real result"
 							}
@@ -428,4 +690,64 @@ func (r *Report) replayAll(dir string) {
 		}
 		vi.replay = r.writeReplayFile(vi, "")
 	}
+}
+
+func (fx *fnExec) allGetValueTerms() []string {
+	return append(append([]string{}, fx.inputConsts...), fx.replayTerms...)
+}
+
+// smallModel asks again for a counter-model whose slices and strings are short enough to be rebuilt (and whose
+// bytes are bytes); nil when there is none within the bound.
+func (r *Report) smallModel(o *Obligation, dir string) map[string]string {
+	fx := o.fx
+	var lens, elems []string
+	for _, rp := range fx.replayParams {
+		var rbs []*replayBytes
+		if rp.bytes != nil {
+			rbs = append(rbs, rp.bytes)
+		}
+		for _, k := range []string{"sequence", "qualities", "feature"} {
+			if rb := rp.fields[k]; rb != nil {
+				rbs = append(rbs, rb)
+			}
+		}
+		for _, rb := range rbs {
+			lens = append(lens, rb.ln)
+			elems = append(elems, rb.elems...)
+		}
+		if rp.kind == "string" {
+			lens = append(lens, rp.strLen)
+			elems = append(elems, rp.strAt...)
+		}
+	}
+	if len(lens) == 0 {
+		return nil
+	}
+	for _, k := range []int{4, 10, replayK} {
+		var b strings.Builder
+		base := o.smt(false)
+		base = strings.Replace(base, "(check-sat)\n", "", 1)
+		b.WriteString(base)
+		for _, l := range lens {
+			fmt.Fprintf(&b, "(assert (<= %s %d))\n", l, k)
+		}
+		for _, e := range elems {
+			fmt.Fprintf(&b, "(assert (and (<= 0 %s) (< %s 256)))\n", e, e)
+		}
+		b.WriteString("(check-sat)\n")
+		ts := fx.allGetValueTerms()
+		b.WriteString("(get-value (" + strings.Join(ts, " ") + "))\n")
+		file := filepath.Join(dir, fmt.Sprintf("small_%x_%d.smt2", hashStr(o.Name), k))
+		os.WriteFile(file, []byte(b.String()), 0o644)
+		for _, s := range solvers[:2] {
+			res := runSolver(context.Background(), s, 8, file)
+			if res.verdict == "sat" {
+				return parseGetValue(res.out, ts)
+			}
+			if res.verdict == "unsat" {
+				break
+			}
+		}
+	}
+	return nil
 }
